@@ -150,6 +150,8 @@ fn real_main() -> i32 {
         "reuse" => families::reuse(&a),
         "backlog" => families::backlog(&a),
         "sidwrap" => families::sidwrap(&a),
+        "manysids" => families::manysids(&a),
+        "earlyops" => families::earlyops(&a),
         "chunk" => families::chunk(&a),
         "fuzz" => families::fuzz(&a),
         "endings" => families::endings(&a),
